@@ -15,6 +15,9 @@ const VERIF: &str = "/verif";
 fn main() {
     // caught panics are part of normal operation: keep them quiet, count them instead
     std::panic::set_hook(Box::new(|_| {}));
+    // error values are created by the million; never capture backtraces for them
+    std::env::set_var("RUST_BACKTRACE", "0");
+    std::env::set_var("RUST_LIB_BACKTRACE", "0");
     let args: Vec<String> = std::env::args().collect();
     if args.len() < 3 {
         eprintln!("usage: mahf-mc <Cxx> quick|thorough | mahf-mc <Cxx> --replay <file> | mahf-mc <Cxx> --worker ...");
